@@ -32,6 +32,24 @@ class Ctx:
         self.selftest: Dict[str, Any] = {}
         self.extra: Dict[str, Any] = {}
         self.min_counts: Dict[str, int] = {}
+        self.analysis_errors: List[str] = []
+
+    def guard(self, what: str):
+        """context manager: an AnalysisError inside one sub-analysis does not hide the verdicts of the others;
+        it is reported at the end (exit 2 unless a genuine violation was found as well)"""
+        ctx = self
+
+        class _G:
+            def __enter__(self):
+                return self
+
+            def __exit__(self, et, ev, tb):
+                if et is not None and issubclass(et, AnalysisError):
+                    ctx.analysis_errors.append(f"{what}: {ev}")
+                    return True
+                return False
+
+        return _G()
 
     # ---- recording
     def rule(self, rule: str, text: str):
@@ -88,9 +106,9 @@ def finish(ctx: Ctx, write_evidence: bool = True) -> int:
         for rule, n in ctx.min_counts.items():
             got = ctx.count(rule)
             if got < n:
-                raise AnalysisError(f"rule {rule}: only {got} instances found, {n} confirmed by hand — analysis broken")
+                ctx.analysis_errors.append(f"rule {rule}: only {got} instances found, {n} confirmed by hand — analysis broken")
         if not ctx.obligations:
-            raise AnalysisError("no rule instance found at all")
+            ctx.analysis_errors.append("no rule instance found at all")
     known = load_known()
     known_keys = {k["key"]: k for k in known.get("known", []) if k.get("property") == pid}
     failing = [o for o in ctx.obligations if not o["ok"]]
@@ -162,6 +180,7 @@ def finish(ctx: Ctx, write_evidence: bool = True) -> int:
                 "new_violations": [o["key"] for o in new],
                 "info": ctx.infos[:60],
                 "selftest": ctx.selftest,
+                "analysis_errors": ctx.analysis_errors,
                 "checker_cmd": f"/venv/bin/python /verif/check.py {pid} --tier {ctx.tier}",
                 "trusted_base": ["CPython ast", "the checker's own algebra (sa/algebra.py)", "pinned spec values in /verif/spec"],
                 "exhaustive": True,
@@ -172,4 +191,8 @@ def finish(ctx: Ctx, write_evidence: bool = True) -> int:
             "violations": len(new),
         }
         (evdir / f"{pid}.json").write_text(json.dumps(ev, indent=1, default=str))
-    return 1 if new else 0
+    for e in ctx.analysis_errors:
+        print(f"ANALYSIS-ERROR property={pid} {e}", file=out)
+    if new:
+        return 1
+    return 2 if ctx.analysis_errors else 0
